@@ -482,6 +482,11 @@ def run(ctx, with_contradiction=True):
     if tf is not None:
         t = guard_table(ctx, tf)
         good = any(a == ('in', 'p1', ('1', '2', '3', '4', '5', '6')) for r in t for a in r['atoms'])
+        if not good:
+            from . import C17
+            dt_ = C17.degree_table(ctx)
+            if dt_ is not None and tf in (dt_['fn'], dt_['other']):
+                good = sorted(dt_['map']) == [1, 2, 3, 4, 5, 6]          # the conversion as a table lookup
         rep.check(good, 'R-C15-3', 'R-C15-3/degree-domain', 'ExtensionDegree::try_from(u8) accepts exactly 1..=6', 'ExtensionDegree::try_from(u8) accepts %s' % [r['atoms'] for r in t], ctx.where(tf))
 
     # ---- R-C15-4 serde delegates
